@@ -185,10 +185,14 @@ def rule_r2(ctx) -> List[R.Inst]:
 
 
 def _const_table(ctx, cls: str, meth: str):
+    from .tablepairs import tables_of
+    from .. import tablefn as TF
     M = ctx.M
     fn = M.fn(f"{cls}.{meth}")
-    arg = params_of(fn.node)[0]
-    tab, default = C.return_const_table(fn.node, arg, lambda e: M.lit(fn.mod, e, cls))
+    try:
+        tab, default = tables_of(ctx, cls)(meth)
+    except (TF.Unknown, NotLiteral, TypeError, ValueError) as e:
+        raise AnalysisError(f"{cls}.{meth}: table not extracted ({e})")
     return tab, default, fn
 
 
